@@ -62,7 +62,11 @@ Definition required : list (string * pkind) :=
            [PT; PD; PBd; PBo; PT1]
   ++ [("add_transition", PT); ("transition_list setter", PT); ("add_transition", PT1)]
   ++ flat_map (fun k => [("add_birth_death", k); ("birth_death_list setter", k)]) [PD; PBd; PBo]
-  ++ [("Event(rate, [t1, t2])", PTD); ("Event([t1 with rate, t2])", PTD); ("Event([t1, t2 with rate])", PTD)].
+  ++ [("Event(rate, [t1, t2])", PTD); ("Event([t1 with rate, t2])", PTD); ("Event([t1, t2 with rate])", PTD)]
+  ++ [("type spelled 'between states'", PT); ("type spelled 't'", PT); ("type spelled 'death process'", PD);
+      ("type spelled 'birth process'", PBd); ("type given as enum member", PT); ("type given as enum member", PD);
+      ("type given as enum member", PBd); ("positional Transition", PT); ("positional Transition", PD);
+      ("positional Transition", PBd)].
 Close Scope string_scope.
 
 Definition routes_ok (rows : list (string * pkind * outcome)) (reuse : list (pkind * bool))
